@@ -443,7 +443,10 @@ func readInt(n int, b []byte) ([]byte, uint64, error) {
 	nn := uint64(0)
 
 	for i := 1; i < len(b); i++ {
-		if shift := (i - 1) * 7; shift >= 64 {
+		// Nine continuation bytes carry 63 bits. A tenth would be shifted out
+		// of the uint64, or wrap it when the prefix is added, and come back as
+		// a small value instead of an error.
+		if shift := (i - 1) * 7; shift > 56 {
 			return b, 0, ErrIntOverflow
 		} else {
 			nn |= uint64(b[i]&127) << shift
